@@ -452,18 +452,35 @@ mod proofs {
 
     // @harness id=C15 tier=quick unwind=24 timeout=3000 fs=4096 mem=24
     // @desc serializing a ciphertext (compact format) to a writer that accepts 1..8 bytes per call and may FAIL at any call either returns Err or leaves the complete encoding in the sink -- an Ok result is never reported for a sink that did not receive every byte
-    // @bounds BFV N=2, q={97}, size 2 (46-byte encoding); per-call limit 3 (failure at call 7, at the last call 21, or never) and 8 (failure at call 4), each a concrete run; all canonical residues
+    // @bounds BFV N=2, q={97}, size 2 (46-byte encoding); per-call limit 3: failure at call 7 (inside the identifier) or never, each a concrete run; all canonical residues (harness _b: failure at the last call, limit 8)
     // @funcs <Ciphertext as SerializableWithHeContext>::serialize and every scalar writer below it
     // @stubs HeContext::get_context_data -> linear search over the literal chain; alloc::sync::Arc::drop_slow -> no-op
     #[kani::proof]
     #[kani::stub(crate::context::HeContext::get_context_data, crate::context::verif_v::get_context_data_stub)]
     #[kani::stub(alloc::sync::Arc::drop_slow, crate::verif_v::arc_drop_slow_noop)]
-    fn c15_ciphertext_faulty_writer() {
+    fn c15_ciphertext_faulty_writer_a() {
         let ctx = lits::ctx_bfv_n2_1p();
         let r: [u8; 4] = kani::any(); kani::assume(r[0] < 97 && r[1] < 97 && r[2] < 97 && r[3] < 97);
         // the failing call index is enumerated (concrete per run: a symbolic index forks an error exit with io::Error drop glue at every
         // call and exhausts memory; so did 35, and then 10, indices in one harness -- 1.1 GB of formula per run): inside the identifier, the last call, the size field, and never
-        faulty_case(&ctx, r, 3, 7); faulty_case(&ctx, r, 3, 21); faulty_case(&ctx, r, 8, 4); faulty_case(&ctx, r, 3, usize::MAX);
+        faulty_case(&ctx, r, 3, 7); faulty_case(&ctx, r, 3, usize::MAX);
+        std::mem::forget(ctx);
+    }
+
+    // @harness id=C15 tier=quick unwind=24 timeout=3000 fs=4096 mem=24
+    // @desc serializing a ciphertext (compact format) to a writer that accepts 1..8 bytes per call and may FAIL at any call either returns Err or leaves the complete encoding in the sink -- an Ok result is never reported for a sink that did not receive every byte
+    // @bounds BFV N=2, q={97}, size 2 (46-byte encoding); per-call limit 3 with failure at the last call (index 20 of 21 calls); per-call limit 8 with failure at call 4 (the size field) or never, each a concrete run; all canonical residues
+    // @funcs <Ciphertext as SerializableWithHeContext>::serialize and every scalar writer below it
+    // @stubs HeContext::get_context_data -> linear search over the literal chain; alloc::sync::Arc::drop_slow -> no-op
+    #[kani::proof]
+    #[kani::stub(crate::context::HeContext::get_context_data, crate::context::verif_v::get_context_data_stub)]
+    #[kani::stub(alloc::sync::Arc::drop_slow, crate::verif_v::arc_drop_slow_noop)]
+    fn c15_ciphertext_faulty_writer_b() {
+        let ctx = lits::ctx_bfv_n2_1p();
+        let r: [u8; 4] = kani::any(); kani::assume(r[0] < 97 && r[1] < 97 && r[2] < 97 && r[3] < 97);
+        // the failing call index is enumerated (concrete per run: a symbolic index forks an error exit with io::Error drop glue at every
+        // call and exhausts memory; so did 35, and then 10, indices in one harness -- 1.1 GB of formula per run): inside the identifier, the last call, the size field, and never
+        faulty_case(&ctx, r, 3, 20); faulty_case(&ctx, r, 8, 4); faulty_case(&ctx, r, 8, usize::MAX);
         std::mem::forget(ctx);
     }
     fn faulty_case(ctx: &std::sync::Arc<HeContext>, r: [u8; 4], limit: usize, fail_at: usize) {
@@ -472,7 +489,7 @@ mod proofs {
         let mut w = ShortWriter { buf: [0; 128], len: 0, calls: 0, limit, fail_at };
         let res = ct.serialize(ctx, &mut w);
         let full = ct.serialized_size(ctx);
-        if fail_at == 7 { kani::cover!(res.is_err()); }
+        if fail_at == 7 || fail_at == 20 { kani::cover!(res.is_err()); }
         if fail_at == usize::MAX { kani::cover!(res.is_ok()); }
         if res.is_ok() {
             assert!(w.len == full && full == 32 + 8 + 1 + 1 + 4);
